@@ -34,6 +34,7 @@ type world struct {
 	args           []string    // arguments received by User.calc, rendered
 	introspection  bool        // introspection enabled for the operation
 	onCall         func(n int) // called at the n-th resolver call (cancellation points)
+	liveStream     bool        // subscription resolvers keep their channel open after the last event (a live source that only stops sending when the context ends)
 	regExt         bool        // every resolver-backed field registers the response extension "cost": the second registration is an API misuse that panics inside gqlgen
 	regs           int
 	regExtOwn      bool     // every resolver-backed field registers an extension under its own key
@@ -255,6 +256,16 @@ func (w *world) Resolve(pt, pid, field string, args map[string]any) ref.Out {
 		default:
 			o, _ = w.fault(c, 3)
 		}
+	case "Commands.d":
+		c := w.pick(key, 2+w.nf())
+		switch c {
+		case 0:
+			o = ref.Out{List: users(cid+"[0]", cid+"[1]")}
+		case 1:
+			o = ref.Out{List: users(cid+"[0]", "", cid+"[2]")}
+		default:
+			o, _ = w.fault(c, 2)
+		}
 	case "Commands.a":
 		c := w.pick(key, 1+w.nf())
 		switch c {
@@ -440,7 +451,7 @@ func (r *queryResolver) Box(ctx context.Context) (*Box, error) {
 	if done, err := outErr(o); done {
 		return nil, err
 	}
-	return &Box{ID: o.Obj.ID}, nil
+	return &Box{ID: o.Obj.ID, Seal: "seal:" + o.Obj.ID, Code: 7}, nil
 }
 
 var errBoom = errors.New("boom")
@@ -593,6 +604,10 @@ func (r *mutationResolver) C(ctx context.Context) (*User, error) {
 	return r.w.user("Commands", "", "c")
 }
 
+func (r *mutationResolver) D(ctx context.Context) ([]*User, error) {
+	return r.w.userList("Commands", "", "d")
+}
+
 type subscriptionResolver struct{ w *world }
 
 // Watch / StrictWatch: a stream of user events decided by the world:
@@ -625,7 +640,9 @@ func (r *subscriptionResolver) events(field string) (<-chan *User, error) {
 	for _, e := range evs {
 		ch <- e
 	}
-	close(ch)
+	if !w.liveStream {
+		close(ch)
+	}
 	return ch, nil
 }
 func (r *subscriptionResolver) Watch(ctx context.Context) (<-chan *User, error) {
@@ -919,6 +936,8 @@ func (w *world) guardDirective(ctx context.Context, obj any, next graphql.Resolv
 	case *User:
 		pid = o.ID
 	case *Item:
+		pid = o.ID
+	case *Box:
 		pid = o.ID
 	}
 	if k == 3 {
